@@ -73,12 +73,9 @@ def to_ca(e, B, stage=None):
         return s if s.numel() == 1 else s[e[2]]
     if op == "t":
         return st.t
-    if op == "T":
-        return st.T
-    if op == "t0":
-        return st.t0
-    if op == "tf":
-        return st.tf
+    if op in ("T", "t0", "tf"):
+        tgt = B.stages[e[1]] if len(e) > 1 and e[1] is not None else st   # optional stage qualifier
+        return {"T": tgt.T, "t0": tgt.t0, "tf": tgt.tf}[op]
     if op == "DT":
         return st.DT
     if op == "DTc":
